@@ -233,6 +233,7 @@ def run_case(case: dict, ctx: dict) -> dict:
             "additions": adds,
             "instance_tests": r.chance(1, 4),
             "conventional_names": r.chance(1, 2),
+            "unreadable_user_template": r.below(1000) + 1 if r.chance(1, 3) else 0,
             "root": r.choice(list(roots)),
         }
     plan.setdefault("root", sorted(roots)[0])
@@ -464,6 +465,31 @@ def run_case(case: dict, ctx: dict) -> dict:
                             "get-source-precedence:%s%s" % (policy.name, "" if spelling == "%s.j2" else ":name-spelling"),
                             {"template": spelling % n, "got": origin, "want": want_o, "d1": plan.get("d1"), "d2": plan.get("d2"), "lang": lang},
                         )
+            # a fault while reading the user's template (not valid UTF-8 - a Latin-1 copyright sign in a comment; an I/O
+            # error) is an error: the same-named built-in template must never be used silently in its place
+            if policy == ResourceSearchPolicy.FIND_ALL and plan.get("unreadable_user_template"):
+                victim = sorted(builtin_names)[plan["unreadable_user_template"] % len(builtin_names)]
+                vpath = os.path.join(dirs[0], victim + ".j2")
+                saved = open(vpath, "rb").read() if os.path.exists(vpath) else None
+                with open(vpath, "wb") as f:
+                    f.write(b"{# \xa9 ACME #}\nUSER " + victim.encode() + b"\n")
+                try:
+                    loader2 = DSDLTemplateLoader(templates_dirs=[pathlib.Path(d) for d in dirs], package_name_for_templates="nunavut.lang.%s" % lang, search_policy=policy)
+                    try:
+                        _, filename, _ = loader2.get_source(env0, victim + ".j2")
+                        got_o = "user" if filename.startswith(dirs[0] + os.sep) else "builtin"
+                    except Exception as ex:  # pylint: disable=broad-except
+                        got_o = "raised"
+                    evaluations += 1
+                    bump("probes", "user_template_unreadable:%s" % got_o)
+                    if got_o == "builtin":
+                        violation("unreadable-user-template-silently-replaced-by-builtin", {"template": victim, "lang": lang})
+                finally:
+                    if saved is None:
+                        os.remove(vpath)
+                    else:
+                        with open(vpath, "wb") as f:
+                            f.write(saved)
             # exact class template present in the user set: user wins under both policies
             for n in sorted(set(plan.get("d1") or []) | set(plan.get("d2") or [])):
                 cls = getattr(pydsdl, n, None)
